@@ -4,6 +4,7 @@ import tiers as T
 import tgops
 import ioops
 import iomodel
+from praatio.utilities import my_math
 
 RULE = ("random well-formed textgrids (1-3 interval/point tiers, 0-4 entries; labels from an adversarial pool: quotes, doubled "
         "quotes, runs of quotes at either end, newlines, '=', digits, brackets, backslash, non-ASCII, astral; times: 1-6 digit "
@@ -13,9 +14,21 @@ RULE = ("random well-formed textgrids (1-3 interval/point tiers, 0-4 entries; la
         "names (known finding A10). Each case: save through a real file, open the file, compare, save the reopened textgrid and "
         "compare the text; the text and the parse are also compared with the Lean emitter / parser models. "
         "non-trivial = the textgrid has at least one entry")
-TRUSTED = ["oracle: field-by-field comparison in Python (harness/props/C01.py:oracle); CPython repr/float/json; UTF-8 file I/O"]
+TRUSTED = ["oracle: field-by-field comparison in Python (harness/props/C01.py:oracle); CPython repr/float/json; UTF-8 file I/O",
+           "hypothesis hnum of C01.parseShort_emit (every rendered time is a NumWord: non-empty, one line, no quote, no "
+           "surrounding whitespace) is sampled on every time of every case (oracle clause 'numword')"]
 ASSUMPTIONS = ["labels and names contain no carriage return; names non-empty, single-line, trimmed",
                "intervals and gaps are at least 1e-6 long (sliver absorption is C04's subject)"]
+
+def numword_ok(w):
+    """hypothesis `hnum` of C01.parseShort_emit (lean/PraatModel/Props/C01Full.lean), through its sufficient condition
+    NumWord.of_plain: a rendered time is a non-empty single line without quotes and without surrounding whitespace"""
+    return w != "" and "\n" not in w and '"' not in w and w == w.strip()
+
+
+def times_of(g):
+    return [g["lo"], g["hi"]] + [x for t in g["tiers"] for x in [t["lo"], t["hi"]] + [y for e in t["es"] for y in e[:-1]]]
+
 
 case_json = lambda c: c
 case_from_json = lambda j: j
@@ -77,6 +90,10 @@ def oracle(c, r):
     if kw:
         sig["keyword"] = kw
         sig["place"] = place
+    for x in times_of(g):          # sampled assumption of the whole-file theorem: CPython's numerals are `NumWord`s
+        w = my_math.numToStr(x)
+        if not numword_ok(w):
+            return Failure(dict(sig, clause="numword"), f"numToStr({x!r}) = {w!r} is not a NumWord")
     if r["save"][0] == "err":
         return Failure(dict(sig, clause="save", exc=r["save"][1]), f"save raised {r['save'][1]}")
     if r["open"][0] == "err":
